@@ -184,7 +184,45 @@ static void many_child(const void *job, size_t n) {
 	res_finish();
 }
 static size_t many_gen(long idx, uint8_t *payload, char *human, size_t hn) { static const int NS[9] = {1, 2, 64, 127, 128, 129, 130, 200, 300}; payload[0] = (uint8_t) idx; snprintf(human, hn, "%d messages deferred by %s", NS[idx % 9], idx / 9 ? "an exhausted budget" : "a stall"); return 1; }
-void c05_register(void) { harness_register("c05.many", many_child); harness_register("c05.sched", c05_child); harness_register("c05.hist", c05_hist_child); }
+/* ---------------------------------------------------------------- c05.sessions: the numbering of a LATER session
+ * "0 only while numbering is switched off during connection probing" must hold in every session of a process.  An earlier
+ * session (none / normal / normal against an interface that never answers, so that the start fails with numbering still off /
+ * debug) is followed by a debug-mode or a normal-mode session in which pings go to two nodes: per node 0* (probing), then 1, 2, 3, ... */
+static int ses_silent; static int ses_hook(int node, const rc_msg_t *m) { (void) node; (void) m; return ses_silent; }
+static void sessions_child(const void *job, size_t n) {
+	vs_dev_t devs[VS_MAXDEV]; int nd; size_t pl; const uint8_t *p = job_parse(job, n, devs, &nd, &pl);
+	int prior = p[0], second = p[1];
+	hx_child_begin(NULL, 0, 0, NULL, 0, 0);
+	cfg_install_std(); SB.on_msg = ses_hook; ses_silent = 0;
+	t_bidib_node_address n0 = {0, 0, 0}, n1 = {1, 0, 0}; uint8_t *m;
+	if (prior == 1 || prior == 3) { int rc = prior == 1 ? hx_start_normal(0) : hx_start_debug(0); if (rc) res_infra("earlier session: start failed"); hx_quiesce(); bidib_send_sys_ping(n0, 1, 0); bidib_send_sys_ping(n1, 2, 0); bidib_flush(); hx_quiesce(); bidib_stop(); hx_quiesce(); }
+	if (prior == 2) { ses_silent = 1; int rc = hx_start_normal(0); hx_quiesce(); if (rc != 1) res_infra("earlier session against a silent interface: start returned %d", rc); ses_silent = 0; }
+	while ((m = bidib_read_message())) free(m); while ((m = bidib_read_error_message())) free(m);
+	env_clear_io(); cfg_install_std(); SB.on_msg = ses_hook;
+	int mark = SB.nlog;
+	if ((second ? hx_start_normal(0) : hx_start_debug(0))) res_infra("session under test: start failed");
+	hx_quiesce(); vs_sleep_us(2500000); hx_quiesce();
+	for (int i = 0; i < 3; i++) bidib_send_sys_ping(n0, (uint8_t) i, 0); for (int i = 0; i < 2; i++) bidib_send_sys_ping(n1, (uint8_t) i, 0);
+	bidib_flush(); hx_quiesce();
+	static const char *PN[4] = {"no earlier session", "an earlier normal session", "an earlier session whose start failed against a silent interface", "an earlier debug session"};
+	char what[200]; snprintf(what, sizeof what, "%s session after %s", second ? "normal-mode" : "debug-mode", PN[prior]);
+	struct { uint8_t addr[4]; int last, numbered, pings_numbered; } N[8]; int nn = 0;
+	for (int i = mark; i < SB.nlog && !res_nviol(); i++) {
+		if (SB.log[i].type == MSG_SYS_RESET) { nn = 0; continue; }
+		int k; for (k = 0; k < nn; k++) if (!memcmp(N[k].addr, SB.log[i].addr, 4)) break;
+		if (k == nn) { if (nn >= 8) continue; memset(&N[k], 0, sizeof N[k]); memcpy(N[k].addr, SB.log[i].addr, 4); nn++; }
+		int sq = SB.log[i].seq;
+		if (sq == 0) { if (N[k].numbered || SB.log[i].type == MSG_SYS_PING) res_violation("sequence-zero-after-numbering: number 0 used outside connection probing", "%s: message %d (type %02x) to %02x.%02x.%02x carries 0", what, i - mark, SB.log[i].type, N[k].addr[0], N[k].addr[1], N[k].addr[2]); continue; }
+		int exp = !N[k].numbered ? 1 : (N[k].last == 255 ? 1 : N[k].last + 1);
+		if (sq != exp) res_violation("wire-reorder per-node sequence numbers not consecutive in wire order", "%s: destination %02x.%02x.%02x expected %d got %d (type %02x)", what, N[k].addr[0], N[k].addr[1], N[k].addr[2], exp, sq, SB.log[i].type);
+		N[k].numbered = 1; N[k].last = sq;
+	}
+	hx_emit_ledger_violations("C05");
+	res_printf("O %x %x\n", prior, second);
+	res_finish();
+}
+static size_t sessions_gen(long idx, uint8_t *payload, char *human, size_t hn) { payload[0] = (uint8_t) (idx % 4); payload[1] = (uint8_t) (idx / 4); snprintf(human, hn, "%s session, earlier session kind %ld", idx / 4 ? "normal" : "debug", idx % 4); return 2; }
+void c05_register(void) { harness_register("c05.sessions", sessions_child); harness_register("c05.many", many_child); harness_register("c05.sched", c05_child); harness_register("c05.hist", c05_hist_child); }
 
 int c05_run(const char *tier) {
 	int thorough = !strcmp(tier, "thorough");
@@ -213,6 +251,8 @@ int c05_run(const char *tier) {
 	  rep_note("c05.hist (normal mode: commands, budget burst / release by the receiver, SecAck mirrors, node lost/new, system reset): %d events, depth %d, new states by depth: %s", H_N, hs.depth_completed, sb); }
 	{ ex_spec_t mn = { .harness = "c05.many", .ncases = 18, .gen = many_gen, .label = "c05.many" }; ex_map(&mn); execs += mn.done; states += mn.distinct_outcomes; if (!mn.exhaustive) exhaustive = 0;
 	  rep_note("c05.many: 1..300 messages deferred for one node by a stall / an exhausted budget, all on the wire with consecutive numbers afterwards (%ld cases)", mn.done); }
+	{ ex_spec_t ss = { .harness = "c05.sessions", .ncases = 8, .gen = sessions_gen, .label = "c05.sessions" }; ex_map(&ss); execs += ss.done; if (!ss.exhaustive) exhaustive = 0;
+	  rep_note("c05.sessions: numbering of a debug / normal session after no / a normal / a failed / a debug earlier session (%ld cases)", ss.done); }
 	rep_count("states", states); rep_count("transitions", transitions); rep_count("executions", execs);
 	rep_count("completed_bound", minbound); rep_flag("exhaustive", exhaustive);
 	return 0;
